@@ -20,6 +20,13 @@ CHECKS["C12"] = dict(
     note="Trusted: Coq kernel incl. vm_compute; the fail-closed translator mathtable.py (literal table rows, textual normal form of add_function_mapping and find_known_functions.visit_Call, README regex, builtins' __module__ from the interpreter); the hand-written <cmath> signature table; what each std:: function computes (C library). Traces are tests.",
     technique="Coq proof by computation over a table regenerated from source + end-to-end traces",
 )
+CHECKS["C05"] = dict(
+    category="proof",
+    text="Coq-defined static analysis event_local of the emitted per-event program (no expression reads a class member; abstract interpretation of member levels clean/set/guarded-by-a-local-flag/unknown with joins and loop invariants; every booked column set before each Fill, every vector member cleared on every non-faulting path) with a soundness theorem over ALL events, member states left by earlier events and event lists: run_job equals the per-event job (rows per event, abort position and fault), hence permutation and split invariance (event_local_sound, C05_job_per_event, C05_rows_per_event, C05_abort_prefix, C05_permutation, C05_split; refutations for a missing clear, a column assigned only inside a loop, and the known terminal-after-SelectMany shape). The extracted checker runs on the program the implementation emits for every generated query on all three backends, next to a reference-free search (one job vs. each event alone, permutations, doubled list, split) that yields the concrete failing event list.",
+    design_ref="5.5",
+    note="Proved: quantifiers over events, histories, event lists. Sampled: the quantifier over queries (translation validation of the emitted program; counts and feature histogram in the evidence). Trusted: Coq kernel; Cpp/Exec.v as the model of the emitted C++ subset; the fail-closed parser of the emitted text (re-print compared with the emitted lines); user C++ blocks and math functions as functions of their arguments; extraction and the OCaml driver.",
+    technique="verified static checker (relational two-run proof by mutual induction) + translation validation + differential multi-context execution",
+)
 NOT_YET = {}
 
 def main():
